@@ -1,25 +1,45 @@
-"""Replay of a violation: re-run the recorded operations (or probe case) on the implementation and the model."""
-import json, os, subprocess, sys
+"""Replay of a violation: re-run the recorded history (or probe case) on the implementation built from
+/repo's current tree and on the model; print the disagreements and the monitors that fail on the
+implementation's states.  Exit 1 when the violation reproduces, 0 when it does not."""
+import json, os, subprocess, sys, tempfile
 
 ROOT = os.path.dirname(os.path.dirname(os.path.abspath(__file__)))
 
 
 def replay(prop, path):
     body = json.load(open(path))
-    print(json.dumps({k: body[k] for k in body if k in ('property', 'message', 'tie', 'failing_input', 'mismatch', 'monitor')}, indent=1)[:4000])
+    print(json.dumps({k: body[k] for k in body if k in ('property', 'message', 'tie', 'failing_input', 'broken_ties', 'monitor')}, indent=1)[:4000])
+    hubsim = os.path.join(ROOT, 'harness', 'bin', 'hubsim')
+    model = os.path.join(ROOT, 'lean', '.lake', 'build', 'bin', 'hubmodel')
     mm = body.get('mismatch') or {}
-    ops = mm.get('ops_file') or (body.get('monitor') or {}).get('ops')
+    ops = body.get('history') or mm.get('ops_file') or (body.get('monitor') or {}).get('ops') or (body.get('halt') or {}).get('ops')
+    fi = body.get('failing_input')
+    if not (ops and os.path.exists(ops)) and isinstance(fi, str) and fi.endswith('.ops') and os.path.exists(fi):
+        ops = fi
+    reproduced = False
     if ops and os.path.exists(ops):
-        hubsim = os.path.join(ROOT, 'harness', 'bin', 'hubsim')
-        model = os.path.join(ROOT, 'lean', '.lake', 'build', 'bin', 'hubmodel')
-        a = subprocess.run([hubsim, 'run'], stdin=open(ops), stdout=subprocess.PIPE).stdout
-        b = subprocess.run([model], stdin=open(ops), stdout=subprocess.PIPE).stdout
-        open('/tmp/replay.impl', 'wb').write(a)
-        open('/tmp/replay.model', 'wb').write(b)
-        sys.path.insert(0, os.path.join(ROOT, 'tools'))
-        import compare
-        mism, stats = compare.compare('/tmp/replay.impl', '/tmp/replay.model')
-        print(json.dumps({'replayed_ops': stats['ops'], 'mismatches': mism[:2]}, indent=1)[:3000])
-        os.remove('/tmp/replay.impl'); os.remove('/tmp/replay.model')
-        return 1 if mism else 0
-    return 1
+        with tempfile.TemporaryDirectory() as td:
+            ia, ib = os.path.join(td, 'impl'), os.path.join(td, 'model')
+            with open(ops) as f, open(ia, 'wb') as o:
+                subprocess.run([hubsim, 'run'], stdin=f, stdout=o, stderr=subprocess.DEVNULL)
+            with open(ops) as f, open(ib, 'wb') as o:
+                subprocess.run([model], stdin=f, stdout=o, stderr=subprocess.DEVNULL)
+            sys.path.insert(0, os.path.join(ROOT, 'tools'))
+            import compare
+            mism, stats = compare.compare(ia, ib)
+            with open(ia, 'rb') as f:
+                mon = subprocess.run([model, '--implmon'], stdin=f, stdout=subprocess.PIPE).stdout.decode(errors='replace')
+            hits = [l for l in mon.split('\n') if l.startswith('I ')]
+            halts = [l for l in open(ia, errors='replace') if l.startswith('R halt')]
+            print(json.dumps({'history': ops, 'replayed_ops': stats['ops'], 'mismatches': mism[:3],
+                              'monitors_failing_on_implementation_states': hits[:5], 'implementation_halts': halts[:3]}, indent=1)[:5000])
+            reproduced = bool(mism or hits or halts)
+    elif isinstance(fi, str) and fi.split(' ')[0] in ('afb', 'prop', 'ceilto', 'decmul', 'decround', 'fmt', 'key', 'dec', 'b32enc', 'b32dec', 'page', 'pb', 'pbd'):
+        # a probe case: the model's answer (the implementation's answer is recorded in the replay file)
+        out = subprocess.run([model, '--probe'], input=(fi + '\n').encode(), stdout=subprocess.PIPE).stdout.decode(errors='replace').strip()
+        print(json.dumps({'probe_case': fi, 'model_now': out, 'implementation_recorded': body.get('impl'), 'model_recorded': body.get('model_spec') or body.get('model')}, indent=1))
+        reproduced = True
+    else:
+        print('no recorded history or probe case in this replay file (a broken tie without a failing input): see broken_ties / tie / detail')
+        reproduced = True
+    return 1 if reproduced else 0
